@@ -204,7 +204,10 @@ Definition judge15 (ti to : tree) : tree :=
 
 (* ====================================================================================================== *)
 (* ---------- C14: input, observation ---------- *)
-Record einput := { ei_cfg : ecfg; ei_ops : list op; ei_script : script; ei_clean : bool }.
+(* how the scenario ends: [ei_clean] arrivals pause, then Shutdown; otherwise Shutdown comes right after the last op.
+   [ei_gate] (only with an abrupt Shutdown): the scripted Elasticsearch holds every bulk request until Shutdown has
+   returned, i.e. Shutdown runs while requests are in flight. *)
+Record einput := { ei_cfg : ecfg; ei_ops : list op; ei_script : script; ei_clean : bool; ei_gate : bool }.
 
 (* answers per op (in op order): the answer codes that event got;  calls: the bulk requests seen by the scripted
    service, as a multiset;  high: high-water mark of concurrent bulk requests;  unreliable: the harness saw a
@@ -213,6 +216,7 @@ Record einput := { ei_cfg : ecfg; ei_ops : list op; ei_script : script; ei_clean
 Record eobs := {
   eo_unreliable : bool; eo_timeout : bool;
   eo_answers : list (Z * list tree); eo_calls : list (list doc); eo_high : Z;
+  eo_at_shutdown : list Z;    (* gate scenarios: the events (in op order) that had an answer when Shutdown returned *)
 }.
 
 Definition enc_answer (a : answer) : tree :=
@@ -232,7 +236,10 @@ Definition model_eobs (i : einput) : eobs :=
   let r := es_run (ei_cfg i) (ei_script i) (ei_ops i) (ei_clean i) in
   {| eo_unreliable := false; eo_timeout := false;
      eo_answers := map (fun id => (id, map enc_answer (answers_of id (e_answers r)))) (op_ids (ei_ops i));
-     eo_calls := e_calls r; eo_high := 0 |}.
+     eo_calls := e_calls r; eo_high := 0;
+     (* Shutdown (elasticsearch.go:148-151) only cancels the context and returns: nothing awaits the bulk goroutines,
+        so with every request held in flight only ProcessAsync's own answers exist at that moment *)
+     eo_at_shutdown := if ei_gate i then bads_of (ei_ops i) else [] |}.
 
 (* ---------- the statement of C14 as a decision procedure on observations ---------- *)
 
@@ -280,7 +287,8 @@ Definition count_calls (id : Z) (calls : list (list doc)) : nat := length (filte
             index / id / body is not that of an accepted request
    4 [high] more than index-workers bulk requests in flight at once
    5        no quiescence: a partial batch was not sent (or requests stayed unanswered) although arrivals paused
-   6 [1;id] Shutdown left an accepted request unanswered; detail 1 = it was still in the pending batch
+   6 [1;id] Shutdown left an accepted request unanswered; detail 1 = it was still in the pending batch (never answered);
+     [2;id] detail 2 = its bulk request was in flight (or waiting for a worker) when Shutdown returned
    7 [0;id] a wrong-typed payload is not answered with exactly one error, or was enqueued *)
 Definition spec_c14 (i : einput) (o : eobs) : list tree :=
   if eo_unreliable o || negb (in_domain14 i) then [] else
@@ -305,7 +313,11 @@ Definition spec_c14 (i : einput) (o : eobs) : list tree :=
   ++ (if eo_timeout o then [clause 14 5 []] else [])
   ++ flat_map (fun id =>
     if list_eqb tree_eqb (lookup_answers id (eo_answers o)) [enc_answer AOther] && (count_calls id (eo_calls o) =? 0)%nat
-    then [] else [clause 14 7 [L 0; L id]]) (bads_of (ei_ops i)).
+    then [] else [clause 14 7 [L 0; L id]]) (bads_of (ei_ops i))
+  ++ (if ei_gate i then
+        flat_map (fun d => if dropped d || existsb (Z.eqb (d_id d)) (eo_at_shutdown o) then []
+                           else [clause 14 6 [L 2; L (d_id d)]]) docs
+      else []).
 
 (* ---------- wire (C14) ---------- *)
 Definition dec_doc (t : tree) : option doc :=
@@ -334,25 +346,28 @@ Definition dec_einput (t : tree) : option einput :=
   | T [T [bs; mr; w; L _]; ops; sc; L e] =>
       bs <- getNat bs ;; mr <- getNat mr ;; w <- getNat w ;; ops <- getList dec_op ops ;;
       sc <- getList dec_script_entry sc ;;
-      ok <- (if (e =? 0) || (e =? 1) then Some tt else None) ;;
+      ok <- (if (e =? 0) || (e =? 1) || ((e =? 2) && negb (existsb (fun o => match o with OpPause => true | _ => false end) ops))
+             then Some tt else None) ;;
       Some {| ei_cfg := {| batch_size := bs; max_retries := mr; workers := w |}; ei_ops := ops; ei_script := sc;
-              ei_clean := e =? 0 |}
+              ei_clean := e =? 0; ei_gate := e =? 2 |}
   | _ => None
   end.
 Definition dec_ans (t : tree) : option (Z * list tree) :=
   match t with T [L id; T codes] => Some (id, codes) | _ => None end.
 Definition dec_eobs (t : tree) : option eobs :=
   match t with
-  | T [T [u; to]; ans; calls; L h] =>
+  | T [T [u; to]; ans; calls; L h; ash] =>
       u <- getB u ;; to <- getB to ;; ans <- getList dec_ans ans ;; calls <- getList (getList dec_doc) calls ;;
-      Some {| eo_unreliable := u; eo_timeout := to; eo_answers := ans; eo_calls := calls; eo_high := h |}
+      ash <- getZs ash ;;
+      Some {| eo_unreliable := u; eo_timeout := to; eo_answers := ans; eo_calls := calls; eo_high := h;
+              eo_at_shutdown := ash |}
   | _ => None
   end.
 Definition enc_doc (d : doc) : tree := T [L (d_id d); L (d_idx d); L (d_hasid d); L (d_body d)].
 Definition enc_eobs (o : eobs) : tree :=
   T [T [ofB (eo_unreliable o); ofB (eo_timeout o)];
      ofList (fun a => T [L (fst a); T (snd a)]) (eo_answers o);
-     ofList (ofList enc_doc) (eo_calls o); L (eo_high o)].
+     ofList (ofList enc_doc) (eo_calls o); L (eo_high o); ofZs (eo_at_shutdown o)].
 
 (* multiset equality of bulk requests *)
 Fixpoint remove_first (c : list doc) (l : list (list doc)) : option (list (list doc)) :=
@@ -369,18 +384,21 @@ Fixpoint calls_perm (a b : list (list doc)) : bool :=
 
 Definition ans_eqb (a b : Z * list tree) : bool := (fst a =? fst b) && list_eqb tree_eqb (snd a) (snd b).
 
-(* observable components (C14): 11 answers per event, 12 multiset of bulk requests, 13 quiescence reached.
+(* observable components (C14): 11 answers per event, 12 multiset of bulk requests, 13 quiescence reached,
+   14 events answered when Shutdown returned (gate scenarios).
    The high-water mark is schedule-dependent and only judged by clause 4. *)
 Definition eobs_diffs (m o : eobs) : list Z :=
   if eo_unreliable o then []
   else diff_if (list_eqb ans_eqb (eo_answers m) (eo_answers o)) 11
        ++ diff_if (calls_perm (eo_calls m) (eo_calls o)) 12
-       ++ diff_if (Bool.eqb (eo_timeout m) (eo_timeout o)) 13.
+       ++ diff_if (Bool.eqb (eo_timeout m) (eo_timeout o)) 13
+       ++ diff_if (list_eqb Z.eqb (eo_at_shutdown m) (eo_at_shutdown o)) 14.
 
 (* branch tags (C14): 4 outside the quantifier (duplicate ids, zero sizes), 5 skipped: unreliable timing,
    20 a document was re-sent, 21 retries exhausted, 22 mapping error, 23 non-2xx without error field at the last attempt,
    24 partial batch sent by the idle timer, 25 full batch, 26 wrong-typed payload, 27 Shutdown with a pending batch,
-   28 late response, 29 whole-request error, 30 several requests with more than one worker, 31 success after retry *)
+   28 late response, 29 whole-request error, 30 several requests with more than one worker, 31 success after retry,
+   32 Shutdown with bulk requests in flight *)
 Definition has_answer (p : answer -> bool) (r : esres) : bool := existsb (fun x => p (snd x)) (e_answers r).
 Definition etags (i : einput) (o : eobs) : list Z :=
   let cfg := ei_cfg i in
@@ -399,7 +417,8 @@ Definition etags (i : einput) (o : eobs) : list Z :=
   ++ (if (2 <=? workers cfg)%nat && (2 <=? length (e_calls r))%nat then [30] else [])
   ++ (if existsb (fun d => (2 <=? count_calls (d_id d) (e_calls r))%nat
                             && list_eqb tree_eqb (map enc_answer (answers_of (d_id d) (e_answers r))) [T [L 0]])
-                 (docs_of (ei_ops i)) then [31] else []).
+                 (docs_of (ei_ops i)) then [31] else [])
+  ++ (if ei_gate i then (match e_calls r with [] => [] | _ => [32] end) else []).
 
 Definition judge14 (ti to : tree) : tree :=
   match dec_einput ti, dec_eobs to with
